@@ -941,7 +941,7 @@ class AbstractPriorModel(AbstractModel):
             if a is not None:
                 width = a
             elif r is not None:
-                width = r * mean
+                width = abs(r * mean)
             else:
                 width = width_modifier(mean)
 
